@@ -145,7 +145,9 @@ impl Table {
                 )?;
             }
         }
-        Ok(())
+        // The writer may buffer the data; make sure that a failure to write it
+        // out is reported rather than silently dropped along with the writer.
+        writer.flush()
     }
 }
 
